@@ -344,6 +344,21 @@ type DocContent struct {
 	Count, Sum float64
 	Min, Max   float64
 	HasStats   bool
+	// MinGran: the finest granule among the individual weights added up (0 if all are integers);
+	// NotDyadic: some weight is not a supported dyadic number. Sums are exact only inside the budget.
+	MinGran   int
+	NotDyadic bool
+}
+
+func (c *DocContent) noteWeight(w float64) {
+	g, ok := GranOf(w)
+	if !ok {
+		c.NotDyadic = true
+		return
+	}
+	if g < c.MinGran {
+		c.MinGran = g
+	}
 }
 
 func NewDocContent() *DocContent {
@@ -358,6 +373,7 @@ func (c *DocContent) Apply(blocks []DocBlock) {
 			switch blk.Sub {
 			case 1:
 				c.Zero += blk.F64[0]
+				c.noteWeight(blk.F64[0])
 			case 0x28:
 				c.Count += blk.F64[0]
 				c.HasStats = true
@@ -384,6 +400,7 @@ func (c *DocContent) Apply(blocks []DocBlock) {
 			for i, idx := range blk.Indexes {
 				if blk.Counts[i] != 0 {
 					m[int(idx)] += blk.Counts[i]
+					c.noteWeight(blk.Counts[i])
 				}
 			}
 		}
